@@ -911,6 +911,23 @@ def r_entry_points(ctx, rule='S11-ENTRY'):
             none_ok = any(k == 'call' and tt[1].endswith('::transpose') and any(s[0] == 'call' and s[1].endswith('Option::<T>::map') for s in walk(tt)) for b, k, tt in rets)
         errs = [paths.err_variant(tt) for b, k, tt in rets if k == 'err']
         ctx.check(none_ok and not errs, rule, 'by_item/unknown-id', bi.loc(), 'unknown id => Ok(None)', 'by_item turns an unknown id into something else than Ok(None) (%s)' % errs)
+        # ... and only then: Ok(None) is returned on the None arm of the item lookup and nowhere else (a shortcut deciding
+        # "unknown id" from counts or id ranges disagrees with the item store for sparse ids)
+        stray = []
+        for b, k, tt in rets:
+            if k != 'ok':
+                continue
+            pay = strip(dict(strip(tt)[3]).get('0', ('unknown',))) if strip(tt)[0] == 'agg' else ('unknown',)
+            if not (pay[0] == 'agg' and pay[1].endswith('option::Option') and pay[2] == 'None'):
+                continue
+            on_lookup = False
+            for s0, x0, e in paths.controlling_conds(bi, b):
+                if e[0] in ('disc', 'bool') and any(y[0] == 'call' and y[1] == 'reader::item_leaf' for y in walk(e[1])) and paths.edge_dominates(bi, s0, x0, b):
+                    on_lookup = True
+            if not on_lookup:
+                stray.append(b)
+        ctx.check(not stray, rule, 'by_item/none-only-when-absent', bi.loc(), 'Ok(None) only on the None arm of the item lookup',
+                  'by_item answers Ok(None) without having looked the item up (%d return site(s)): a stored item can be reported as unknown while by_vector with its vector finds neighbours' % len(stray))
     if cv:
         c = cv[0]
         leaf = paths.agg_fields(c.arg_term(2), 'node::Leaf')
